@@ -113,6 +113,11 @@ Theorem C15_builder_call_sequences_round_trip : forall key ops, Forall ok_fbop o
 Proof. exact builder_round_trip. Qed.
 Print Assumptions C15_builder_call_sequences_round_trip.
 
+Theorem C15_segment_builder_call_sequences_round_trip : forall key ops, Forall ok_sbop ops ->
+  decode_segment (encode_segment (sb_build key ops)) = Some (sb_build key ops).
+Proof. exact segment_builder_round_trip. Qed.
+Print Assumptions C15_segment_builder_call_sequences_round_trip.
+
 (* an intermediate Build() leaves the builder as it was *)
 Theorem C15_intermediate_build_is_invisible : forall key l1 l2, fb_build key (l1 ++ FBuild :: l2) = fb_build key (l1 ++ l2).
 Proof. exact intermediate_build_is_invisible. Qed.
